@@ -59,6 +59,9 @@ ASSUMPTIONS = [
     'the 2-D -> 3-D lift (pixel_array[np.newaxis]) and numpy dtype casts of in-range values are taken as given',
     'tiled masks: the model cuts the matrix first and casts the tiles, the code casts the matrix and cuts then (the checks are per '
     'pixel, padding adds background only); both are run on every `tiled` case (L0/L1)',
+    'DimensionIndexValues of slide-coordinate (tiled) objects -- one index per coordinate, computed with np.where over the unique '
+    'values -- are not in the model: the oracle of the `tiled` stream checks them (first value = segment number, strictly increasing '
+    'along the frames); the model covers stacks of planes in a frame of reference and single images without one',
     'sources of the tiled stream have one optical path and one focal plane; pyramids are built from one source image with one mask '
     'per level (down-sampled levels are resampled by Pillow: not an exact round trip, left to C03)',
 ]
@@ -1080,15 +1083,16 @@ def run_case(ctx, c, reqs, pending, paths=('memory', 'eager', 'lazy'), light=Fal
                 except Exception as e:  # noqa: BLE001
                     ctx.fail(dict(desc, path='iter_segments'), f'iter_segments failed: {type(e).__name__}: {e}'[:300],
                              site='iter_segments')
-            reqs.append(('build', dict(margs, keys=[[(-1 if s is None else s), p] for s, p in keys])))
+            reqs.append(('build', dict(margs, keys=[[(-1 if s is None else s), p] for s, p in keys], **{'for': c['source'] != 'single'})))
             pd = bytes(ds.PixelData)
             pending.append((desc, 'build', {'nframes': nf, 'bits': int(ds.BitsAllocated), 'overlap': str(ds.SegmentsOverlap),
                                             'keys': sorted([(-1 if s is None else s), p] for s, p in keys),
                                             'order': [[(-1 if s is None else s), p] for s, p in keys],
-                                            # DimensionIndexValues per (segment, plane) -- stacks of planes in a frame of reference
+                                            # DimensionIndexValues per (segment, plane): stacks of planes in a frame of reference
+                                            # (`frameDims`) and single images without one (`frameDimsNoFoR`)
                                             'dims': ({f'{-1 if s is None else s},{p}': _div(it) for (s, p), it in
                                                       zip(keys, ds.PerFrameFunctionalGroupsSequence)}
-                                                     if c['source'] != 'single' and len(keys) == nf else None),
+                                                     if len(keys) == nf else None),
                                             'pd': list(pd) if c['ts'] in NATIVE else None,
                                             'frames': {f'{-1 if s is None else s},{p}': px[i].astype(np.int64).reshape(-1).tolist()
                                                        for i, (s, p) in enumerate(keys)}}))
